@@ -33,6 +33,10 @@ ENG_A = "simio"
 ENG_B = "simnet"
 
 CHECKS = {
+ "C07": dict(level="exploration", engine=ENG_A, design="DESIGN.md §4 C07",
+   technique="deterministic simulation: odd-length streams from an independent encoder served through a simulated source (short reads, EINTR) into the real eager/lazy readers; invariant checked after every token: reported position == bytes the source handed out",
+   text="Seeded search over data sets in which elements of every VR (incl. fixed-width binary VRs with a length that is not a multiple of the unit, inside items and defined-length sequences) declare odd lengths, x 3 syntaxes x {Accept, NextEven, Fail} x eager/lazy x read segmentations. After every token the reader's position() (captured by an observer around the public StatefulDecode) must equal the bytes the simulated source handed out; Accept must stay aligned and consume the stream exactly, NextEven one byte more per odd value, Fail must report an error at the first odd element.",
+   note="Trusted: the independent encoder and the byte counter of the simulated source; no buffering layer sits between decoder and source. Private attributes are left out (in Implicit VR they are UN)."),
  "C01": dict(level="exploration", engine=ENG_A, design="DESIGN.md §4 C01/C02/C04",
    technique="deterministic simulation, fault-free configuration: seed-drawn abstract data set -> real writer -> simulated sink (short writes, EINTR) -> simulated source (short reads, EINTR) -> real reader; independent PS3.5 encoder/parser as reference model",
    text="Fault-free configuration of the data-set transfer whose faulty configurations decide C05/C34. Per run an abstract data set (all non-SQ VRs, empty/single/multi values, sequences to depth 4, private/unknown attributes, native or encapsulated pixel data) is built through the public API, written in Implicit LE / Explicit LE / Explicit BE / Deflated Explicit LE with either explicit-length strategy through a segmenting, interrupting sink, and read back through a segmenting source. Oracles: writing succeeds; the written bytes parse (independent parser) to the same tree as the independent canonical encoding; the real reader yields equal objects for written and canonical bytes; the object read back has the structure of the abstract data set (items, fragments, offset table).",
